@@ -573,4 +573,40 @@ theorem waitEnd_after_take {P : Prog} {c0 c c' : Cfg} (h0 : Started c0) (hr : Re
   obtain ⟨h1, h2⟩ := (ticketInv_reach h0 hr).marked k hk
   exact ⟨h1, h2 hmk⟩
 
+
+/-- processing one signal marks every outstanding ticket of its class's line, and nothing else about the tickets changes -/
+theorem processSignal_marks (P : Prog) (c : Cfg) (s : Sig) (rest : List Instr) (hc : c.code = .processSignal s :: rest) :
+    ∃ c', step P c = .ok c' ∧ c'.L.tickets = mark c.L.tickets s.cls ∧
+      (∀ k ∈ c'.L.tickets, k.line = s.cls → k.marked = true) ∧
+      (mark c.L.tickets s.cls).length = c.L.tickets.length ∧
+      ∀ i (hi : i < c.L.tickets.length) (hi' : i < (mark c.L.tickets s.cls).length),
+        (mark c.L.tickets s.cls)[i].line = c.L.tickets[i].line ∧ (mark c.L.tickets s.cls)[i].id = c.L.tickets[i].id ∧
+        ((mark c.L.tickets s.cls)[i].marked = true ↔ c.L.tickets[i].marked = true ∨ c.L.tickets[i].line = s.cls) := by
+  refine ⟨_, processSignal_step P c s rest hc, ?_, ?_, (mark_spec _ _).1, (mark_spec _ _).2⟩
+  · split
+    · rfl
+    · split <;> rfl
+  · intro k hk
+    have : k ∈ mark c.L.tickets s.cls := by
+      revert hk; split
+      · exact id
+      · split <;> exact id
+    exact mark_all _ _ k this
+
+/-- on the history: the non-waiting form takes signals of its batch priority only, and ends with the queues as they were -/
+theorem nonwaiting_history {P : Prog} {c c' : Cfg} (ht : Trans P c c') :
+    (∀ pr q s, c.code.head? = some (.procIter (some pr)) → Tr.take q s ∈ newTr c c' → s.prio = pr) ∧
+    (Tr.procEnd ∈ newTr c c' → c'.L.queues = c.L.queues) := by
+  have horig := (trans_origin ht).toNewTr.2
+  refine ⟨fun pr q s hh hm => ?_, fun hm => ?_⟩
+  · obtain ⟨-, h | ⟨cls, t, h, -⟩ | ⟨p, h, hp, -⟩⟩ := horig _ hm
+    · rw [hh] at h; cases h
+    · rw [hh] at h; cases h
+    · rw [hh] at h; cases h
+      rcases hp with hp | hp
+      · cases hp
+      · cases hp; rfl
+  · obtain ⟨p, -, hq, -⟩ := horig _ hm
+    exact hq
+
 end Simpleline.Dispatch
